@@ -341,6 +341,26 @@ var registry = map[string]maker{
 	},
 }
 
+// fullReference compares ALL of a workload's read-back output with the workload's own host reference where the
+// workload's Verify() looks at a part only (matrixmultiplication.Verify walks a single row: its inner loop tests and
+// increments the outer index). Returns "" when equal within the workload's tolerance.
+func fullReference(b benchmarks.Benchmark) string {
+	switch b := b.(type) {
+	case *matrixmultiplication.Benchmark:
+		cpu := (&matrixmultiplication.CPUMatrixMultiplier{}).Multiply(b.MatrixA, b.MatrixB)
+		for j := uint32(0); j < cpu.Height; j++ {
+			for i := uint32(0); i < cpu.Width; i++ {
+				idx := i + j*cpu.Width
+				if math.Abs(float64(cpu.Data[idx]-b.MatrixC.Data[idx])) > 1e-3 {
+					return fmt.Sprintf("full comparison with the CPU reference: mismatch at row %d col %d: expected %f, but get %f",
+						j, i, cpu.Data[idx], b.MatrixC.Data[idx])
+				}
+			}
+		}
+	}
+	return ""
+}
+
 func makeBench(name string, d *driver.Driver, a arch.Type, p params) benchmarks.Benchmark {
 	m, ok := registry[name]
 	if !ok {
